@@ -847,3 +847,108 @@ Proof.
       destruct (Bpeer ltac:(lia)) as [H|H]; auto. rewrite He in H. simpl in H. lia. }
   split; [auto|split; [apply flush_closed|apply read_not_blocked]]; auto.
 Qed.
+
+(* ====================================================================================================
+   Nothing is left behind by a close: once close() has cleaned (nobody is between its CAS and the end of
+   clean()), pendingData and recvBuf are empty and stay empty — in particular a goroutine that was spawned
+   after close()'s Wait finds nothing to move into the recycled recvBuf
+   ==================================================================================================== *)
+Definition c_late (c : cpc) : bool := match c with CPend _ | CRecv _ => true | _ => false end.
+Definition c_pre (c : cpc) : bool := match c with CWait _ | CTbl _ | CPend _ => true | _ => false end.
+Definition c_cl4 (c : cpc) : bool := match c with CWait _ | CTbl _ | CPend _ | CRecv _ => true | _ => false end.
+Definition c_atrecv (c : cpc) : bool := match c with CRecv _ => true | _ => false end.
+
+Record InvQ (s : est) : Prop := {
+  q_tbl : cz c_late (clos s) + cz (gl c_late) (gors s) = 0 \/ b2z (intable s) = 0;
+  q_pend : st s <> c_streamClosed \/ cz c_pre (clos s) + cz (gl c_pre) (gors s) > 0 \/ nz (pending s) = 0;
+  q_recv : st s <> c_streamClosed \/ cz c_cl4 (clos s) + cz (gl c_cl4) (gors s) > 0 \/ nz (recv s) = 0;
+  q_atrecv : cz c_atrecv (clos s) + cz (gl c_atrecv) (gors s) = 0 \/ nz (pending s) = 0 }.
+
+Lemma nz_skipn {A} k (l : list A) : nz l = 0 -> nz (skipn k l) = 0.
+Proof. destruct l; simpl; [destruct k; reflexivity|lia]. Qed.
+Lemma nz_app_nil {A} (l : list A) (p : list (list A)) : nz p = 0 -> l ++ concat p = l.
+Proof. destruct p; simpl; [intros _; apply app_nil_r|lia]. Qed.
+
+Ltac cbq := cbn [c_late c_pre c_cl4 c_atrecv] in *.
+Ltac czq s :=
+  pose proof (cz_nonneg c_late (clos s)); pose proof (cz_nonneg (gl c_late) (gors s));
+  pose proof (cz_nonneg c_pre (clos s)); pose proof (cz_nonneg (gl c_pre) (gors s));
+  pose proof (cz_nonneg c_cl4 (clos s)); pose proof (cz_nonneg (gl c_cl4) (gors s));
+  pose proof (cz_nonneg c_atrecv (clos s)); pose proof (cz_nonneg (gl c_atrecv) (gors s));
+  pose proof (cz_le c_pre c_cl4 (clos s) ltac:(intros [] E; simpl in *; congruence));
+  pose proof (cz_le (gl c_pre) (gl c_cl4) (gors s) ltac:(intros [| | | | c| | | | | | | |c|] E; simpl in *; try congruence; destruct c; simpl in *; congruence));
+  pose proof (cz_le c_cleanT c_pre (clos s) ltac:(intros [] E; simpl in *; congruence));
+  pose proof (cz_le (gl c_cleanT) (gl c_pre) (gors s) ltac:(intros [| | | | c| | | | | | | |c|] E; simpl in *; try congruence; destruct c; simpl in *; congruence));
+  pose proof (cz_le c_atrecv c_late (clos s) ltac:(intros [] E; simpl in *; congruence));
+  pose proof (cz_le (gl c_atrecv) (gl c_late) (gors s) ltac:(intros [| | | | c| | | | | | | |c|] E; simpl in *; try congruence; destruct c; simpl in *; congruence));
+  pose proof (b2z_range (intable s)).
+Ltac czinq := match goal with
+  | Hn : nth_error (clos _) _ = Some _ |- _ =>
+      try (pose proof (cz_pos_in c_late _ _ _ Hn eq_refl)); try (pose proof (cz_pos_in c_pre _ _ _ Hn eq_refl));
+      try (pose proof (cz_pos_in c_cl4 _ _ _ Hn eq_refl)); try (pose proof (cz_pos_in c_atrecv _ _ _ Hn eq_refl))
+  | Hn : nth_error (gors _) _ = Some _ |- _ =>
+      try (pose proof (cz_pos_in (gl c_late) _ _ _ Hn eq_refl)); try (pose proof (cz_pos_in (gl c_pre) _ _ _ Hn eq_refl));
+      try (pose proof (cz_pos_in (gl c_cl4) _ _ _ Hn eq_refl)); try (pose proof (cz_pos_in (gl c_atrecv) _ _ _ Hn eq_refl))
+  | _ => idtac end.
+Ltac finq s := cb; cbq; rw_eqs; rw_cnt; cb; cbq; try assumption; czinq; cb; cbq; uc; zeqh; uc; cb; cbq; try lia; czq s; lia.
+
+Lemma stepQ s w : InvP s -> InvT s -> InvQ s -> InvQ (step s w).
+Proof.
+  intros [_ P2 P3 _ P7] [T1 _ _] [Q1 Q2 Q3 Q4].
+  cases s w; brk; constructor; try solve [finq s].
+  - (* GMove: after the clean nothing is pending, so nothing is moved *)
+    cb; cbq; rw_eqs; rw_cnt; cb; cbq; cb.
+    destruct (Z.eq_dec (nz (pending s)) 0) as [Hp|Hp]; [rewrite (nz_app_nil _ _ Hp); czq s; lia|]. czq s; lia.
+  - cb; cbq; rw_eqs; rw_cnt; cb; cbq; cb.
+    destruct (Z.eq_dec (nz (recv s)) 0) as [Hp|Hp]; [rewrite (nz_skipn _ _ Hp); czq s; lia|]. czq s; lia.
+  - cb; cbq; rw_eqs; rw_cnt; cb; cbq; cb.
+    destruct (Z.eq_dec (nz (recv s)) 0) as [Hp|Hp]; [rewrite (nz_skipn _ _ Hp); czq s; lia|]. czq s; lia.
+Qed.
+
+Lemma initQ cb0 inb n scr ups : InvQ (init cb0 inb n scr ups).
+Proof. constructor; cbn; rewrite ?cz_repeat_false by reflexivity; uc; lia. Qed.
+Lemma runQ sched s : InvAll s -> InvQ s -> InvQ (run sched s).
+Proof.
+  revert s; induction sched as [|w l IH]; simpl; intros s HA HQ; auto.
+  apply IH; [apply stepAll, HA|apply stepQ; [apply HA|apply HA|exact HQ]].
+Qed.
+
+(* at closed quiescence nothing is left in pendingData or recvBuf (so a read returns end-of-stream at once) *)
+Theorem no_residue cb0 inb nc scr ups sched :
+  let s := run sched (init cb0 inb nc scr ups) in
+  st s = c_streamClosed ->
+  (forall i g, nth_error (gors s) i = Some g -> g = GExit) ->
+  (forall i c, nth_error (clos s) i = Some c -> c = KRet \/ c = KStart) ->
+  pending s = [] /\ recv s = [] /\ read_res s = REndOfStream.
+Proof.
+  intros s Hst Hg Hc.
+  pose proof (runQ sched _ (initAll cb0 inb nc scr ups) (initQ cb0 inb nc scr ups)) as [_ Q2 Q3 _]. fold s in Q2, Q3.
+  assert (G0 : forall f, f GExit = false -> cz f (gors s) = 0).
+  { intros f Hf. apply cz_all_false. intros j g Hj. rewrite (Hg j g Hj). exact Hf. }
+  assert (C0 : forall f, f KRet = false -> f KStart = false -> cz f (clos s) = 0).
+  { intros f H1 H2. apply cz_all_false. intros j c Hj. destruct (Hc j c Hj) as [->| ->]; auto. }
+  rewrite (G0 (gl c_pre)), (C0 c_pre) in Q2 by reflexivity.
+  rewrite (G0 (gl c_cl4)), (C0 c_cl4) in Q3 by reflexivity.
+  assert (Hp : pending s = []) by (apply nz_nil; lia).
+  assert (Hr : recv s = []) by (apply nz_nil; lia).
+  repeat split; auto. unfold read_res. rewrite Hp, Hr. simpl.
+  destruct (Z.eqb_spec (st s) c_streamOpened); [uc; lia|reflexivity].
+Qed.
+
+(* ---------- recvBuf is recycled under a running OnData: the bytes an invocation was offered do not stay
+   readable until it returns ---------- *)
+Definition view_stable_stmt : Prop := forall cb0 inb nc scr ups sched,
+  let s := run sched (init cb0 inb nc scr ups) in
+  cz g_run (gors s) >= 1 -> recv (step s WEv) = recv s.
+(* while the stream is not closed the event loop never touches recvBuf *)
+Theorem view_stable_partial cb0 inb nc scr ups sched :
+  let s := run sched (init cb0 inb nc scr ups) in
+  st s <> c_streamClosed -> recv (step s WEv) = recv s.
+Proof.
+  intros s Hst. pose proof (runAll sched _ (initAll cb0 inb nc scr ups)) as [[HE _ _ _ _] _ _ _ _]. fold s in HE.
+  specialize (HE Hst). cbn [step]. unfold estep. destruct (epc s) eqn:Ee; cbn in HE; try lia.
+  all: repeat match goal with
+       | |- context [match inbox ?x with _ => _ end] => destruct (inbox x) as [|[m|] r]
+       | |- context [if ?c then _ else _] => destruct c
+       end; reflexivity.
+Qed.
